@@ -5,10 +5,10 @@ CONSTANTS Kinds = {"plain"}
           MixedMethKeys = {"G", "GP"}
           MaxLen = 3
           MaxT = 3
-          ServerSet = {"none", "rel", "relslash", "relroot", "abs", "absvar", "two", "psfirst", "pslast"}
+          ServerSet = {"none", "rel", "relslash", "relroot", "abs", "absvar", "two", "psfirst", "pslast", "relpfx", "abspfx"}
           CoreLen = 3
           CoreT = 3
-          CoreServers = {"none", "rel", "relslash", "relroot", "abs", "absvar", "two", "psfirst", "pslast"}
+          CoreServers = {"none", "rel", "relslash", "relroot", "abs", "absvar", "two", "psfirst", "pslast", "relpfx", "abspfx"}
           Slice = 0
           Seed = 1
 INVARIANTS DesignOK Emit
